@@ -24,7 +24,9 @@ FR = ['>>> ', '... ', '>>>', '...', '\n', '    ', 'x = 1', '(', ')', '[', ']', "
       '\r', '\t', 'def f():', 'return', 'if x:', 'else:', 'print(1)', ';', ':', 'lambda', 'Example:', 'want', '@',
       '\xe9', 'await', 'class A:', '{', '}', ',', '#',
       # directive prefixes in other spellings, unbalanced either way; a google block header with its indentation
-      '# XDOCTEST: +SKIP)', '# Doctest: +REQUIRES(', '# xdoc: +SKIP(', 'Example:\n    ', 'Doctest:\n    >>> ']
+      '# XDOCTEST: +SKIP)', '# Doctest: +REQUIRES(', '# xdoc: +SKIP(', 'Example:\n    ', 'Doctest:\n    >>> ',
+      # whitespace that str.strip() removes but that is neither a blank nor a line break for splitlines()
+      '\x1f', '\xa0']
 STYLES = ('auto', 'google', 'freeform')
 PROMPTS = ('>>>', '...')
 
@@ -136,6 +138,35 @@ def check_string(s, embed, fails, counters):
                     fails.append((key, [{'sig': 'module:collection-escapes:' + type(ex).__name__,
                                          'msg': 'parse_doctestables on a module holding %r (style=%s) raised %r' % (s, style, ex)}], {'string': s}))
             harness.forget_modules(modname)
+        if '\n' in s:
+            # second embedding: the text as the *module* docstring, written on line 1 as a one-line triple-quoted
+            # literal whose newlines are escape sequences (the value has more lines than the literal)
+            esc = repr(s)[1:-1].replace('"', '\\"')
+            src2 = '"""%s"""\n\n\ndef ok1():\n    """\n    Example:\n        >>> print(1)\n        1\n    """\n' % esc
+            try:
+                compile(src2, 'm', 'exec')
+            except (SyntaxError, ValueError):
+                src2 = None
+            if src2:
+                with harness.scratch_dir('c14b') as d:
+                    modname = harness.unique_modname('m14b', src2)
+                    p = os.path.join(d, modname + '.py')
+                    with open(p, 'w') as f:
+                        f.write(src2)
+                    for style in STYLES:
+                        n += 1
+                        try:
+                            with contextlib.redirect_stdout(io.StringIO()), warnings.catch_warnings():
+                                warnings.simplefilter('ignore')
+                                exs = list(core.parse_doctestables(p, style=style, analysis='static'))
+                            if not any(e.callname == 'ok1' for e in exs):
+                                fails.append((key, [{'sig': 'module:sibling-of-module-docstring-not-collected', 'msg': '%s %r' % (style, s)}], {'string': s}))
+                        except BaseException as ex:
+                            if type(ex).__name__ == 'CaseTimeout':
+                                raise
+                            fails.append((key, [{'sig': 'module:collection-escapes:' + type(ex).__name__,
+                                                 'msg': 'parse_doctestables on a module whose one-line module docstring literal is %r (style=%s) raised %r' % (s, style, ex)}], {'string': s}))
+                    harness.forget_modules(modname)
     return n
 
 
